@@ -570,9 +570,14 @@ func (s *structVM) newChildField(parent *fieldVM, child *fieldVM, toBind bool) *
 			f.valueGetter = func(ptr unsafe.Pointer) interface{} {
 				newField := reflect.NewAt(parent.structField.Type, parent.getPtr(ptr))
 				for i := 0; i < parent.ptrDeep; i++ {
+					// (the struct that carries the parent may itself be absent, or an
+					// outer level of a multi-level pointer may be nil)
+					if newField.IsNil() {
+						return nil
+					}
 					newField = newField.Elem()
 				}
-				if newField.IsNil() {
+				if !newField.IsValid() || newField.IsNil() {
 					return nil
 				}
 				return child.valueGetter(unsafe.Pointer(newField.Pointer()))
